@@ -434,8 +434,14 @@ theorem mutF_refines {f : FieldDesc} {v : Val} (hv : slotOK (msgOK S false (fuel
           elemOK, msgOK_emptyMsg, Bool.or_true, and_true]
         simp only [emptyMsg, Val.isNone, Bool.false_eq_true, if_false]
         exact repNorm_emptyMsg S (fuel+1) mi
-      · simp only [Reflect.mutF, SpecReflect.mutF, hs, he, FWrel, FWok, repSlot_oneof _ _ _ hs, true_and]
-        exact hv
+      · have hxn : x ≠ Val.none := by
+          rintro rfl
+          simp [elemOK, he, msgOK, msgOKLvl, Val.isNone] at hx
+        cases x with
+        | none => exact absurd rfl hxn
+        | _ =>
+          simp only [Reflect.mutF, SpecReflect.mutF, hs, he, FWrel, FWok, repSlot_oneof _ _ _ hs, true_and]
+          exact hv
 end
 
 /-! ### list views -/
